@@ -262,6 +262,14 @@ def oracle(case, outcome, ctx):
                         f"assembly {key}: csv line {g}, expected localised={e[2]}")
                 elif g[1] != e[1] and e[2] == "yes":
                     err("chromosome-list-csv-chromosome-name", f"assembly {key}: csv line {g}, expected chromosome {e[1]}")
+    # a chromosome list names scaffolds that are written: none of them is a scaffold without rows
+    for key, asm in outcome["out_obj"].items():
+        txt = ba.assembly_stats.chromosome_name_csv(asm) if asm.curated else None
+        if txt:
+            hollow = {s_.name for s_ in asm.scaffolds if not s_.rows}
+            ghosts = [ln.split(",")[0] for ln in txt.splitlines() if ln.split(",")[0] in hollow]
+            if ghosts:
+                err("chromosome-list-names-scaffold-without-rows", f"assembly {key}: {ghosts}")
     rep = ba.assembly_stats.chromosomes_report_csv(outcome["out_obj"])
     if rep:
         rows = list(csv.reader(io.StringIO(rep)))[1:]
@@ -333,6 +341,14 @@ def check_cli(cr, ctx):
         if got != chroms:
             ctx.violation("chromosome-list-file-lines", f"{f}: {got} expected {chroms}", case)
             return
+        # ... and every scaffold the list names is an object of the assembly file beside it
+        agp = next((n for n in files if n.endswith(".agp") and n.startswith(name + ".")), None)
+        if agp is not None:
+            objs = {ln.split("\t", 1)[0] for ln in files[agp].decode().splitlines() if ln and not ln.startswith("#")}
+            ghosts = [n for n in got if n not in objs]
+            if ghosts:
+                ctx.violation("chromosome-list-names-scaffold-absent-from-assembly-file", f"{f}: {ghosts} not in {agp}", case)
+                return
     ctx.count("cli:ok")
 
 
